@@ -123,7 +123,7 @@ def program_value(v, colname: str) -> dict:
         # the fill value of `shift` is a literal position too (falsy values - 0, 0.0, False, "" - included)
         cols += [["sh", {"fn": "shift", "args": [x, {"lit": 1}, lit], "arrange": [{"col": ["t0", "id"]}]}],
                  ["sh_back", {"fn": "shift", "args": [x, {"lit": -2}, lit], "arrange": [{"col": ["t0", "id"]}]}]]
-        if not isinstance(v, bool):
+        if not isinstance(v, (bool, str)):
             cols += [["lt", {"fn": "less_than", "args": [x, lit]}], ["sum", {"fn": "add", "args": [x, lit]}], ["diff", {"fn": "sub", "args": [x, lit]}],
                      ["prod", {"fn": "mul", "args": [lit, x]}], ["neg", {"fn": "neg", "args": [{"fn": "add", "args": [x, lit]}]}],
                      # a sign applied to the literal itself: `- -3` must not become the comment `--3`
